@@ -130,6 +130,11 @@ def states_for(st0, tier, heavy):
             perm[i], perm[j] = j, i
             perm[k], perm[l] = l, k
             out.append(perm_state(st0, perm, f"vswap({i},{j})({k},{l})"))
+    # the same (unsorted) connectivity handed over in other integer dtypes: the constructor normalises values, not dtypes
+    if kind == 'tri' and len(out) > 1:
+        for dt in ('uint32', 'uint64', 'int16'):
+            src = out[1 + (len(dt) % max(1, len(out) - 1))]
+            out.append(src.child(op=f't.astype({dt})', kw=dict(src.kw, t_dtype=dt)))
     # cell orders
     cps = list(itertools.permutations(range(nt))) if nt <= 3 else \
         [tuple(range(nt))[::-1]] + [tuple(c if c not in (a, b) else (b if c == a else a) for c in range(nt))
